@@ -43,7 +43,8 @@ CLAIMS = {
     "C04": bounded("No contract within reach decides 'every function of the initial space stays exact' (needs approximation theory through numpy quadrature/interpn). "
                    "BOUNDED (deciding): hierarchical hats of the initial space, random combinations and linear monomials carried as extra output components through adversarial "
                    "refinement histories of all three strategies. PROVED support only: coarsening never below lmin; global trapezoidal weights (standard and modified basis) are "
-                   "the exact integrals of the basis functions."),
+                   "the exact integrals of the basis functions; the local 1-D trapezoidal rule with boundary points (used per area by extend-split and cell) integrates 1 and x "
+                   "exactly for every level and sub-box."),
     "C05": mixed("PROVED: the accumulation pass compute_solutions (any number of component grids and sub-areas, extend-split receiver) adds to the combined result exactly "
                  "the sum over component grids and areas of coefficient*component result, and the same to the container total / the area values; Integration.evaluate_area moves area value, container total and combined result by the same coefficient*component-integral; process_removed_objects "
                  "subtracts each removed area exactly once; RefinementContainer.set_value/set_evaluations keep total == sum over objects (ghost Sum + induction lemma). "
